@@ -988,6 +988,10 @@ func TestC15(t *testing.T) {
 		wg.Add(1)
 		go func(s int) { defer wg.Done(); c15StatusAfterOddRegistrations(ev, bin, s) }(s)
 	}
+	for s := 0; s < vlib.Scale(3, 30); s++ {
+		wg.Add(1)
+		go func(s int) { defer wg.Done(); c15SharedConnection(ev, bin, s) }(s)
+	}
 	wg.Wait()
 	if vlib.Thorough() {
 		if rbin, err := vlib.BuildVipnode("race"); err == nil {
